@@ -15,7 +15,7 @@ ROWS = [('Row.full', ['struct Row {'], True, True), ('Row.action_only', ['struct
 for nm, sc, has_a, has_g in ROWS:
     if has_a:
         UNITS.append(Unit('front.%s.action_call' % nm, ['C14', 'C02', 'C05'], 'front', Part(FR, sc, 'action_call ( FSM & fsm , EVT & evt , SourceState & src , TargetState & tgt , AllStates & )'),
-            'HandledEnum action_call(fsm_t* fsm, event_t evt, stref_t src, stref_t tgt)', 'functor_row.spec.h', defines=['UNIT_ACTION_CALL=1'], xform=xr, replay=['order']))
+            'HandledEnum action_call(fsm_t* fsm, event_t evt, stref_t src, stref_t tgt)', 'functor_row.spec.h', defines=['UNIT_ACTION_CALL=1'], xform=xr, replay=['order', 'defer']))
     if has_g:
         UNITS.append(Unit('front.%s.guard_call' % nm, ['C14', 'C02'], 'front', Part(FR, sc, 'guard_call ( FSM & fsm , EVT & evt , SourceState & src , TargetState & tgt , AllStates & )'),
             '_Bool guard_call(fsm_t* fsm, event_t evt, stref_t src, stref_t tgt)', 'functor_row.spec.h', defines=['UNIT_GUARD_CALL=1'], xform=xr, replay=['order']))
